@@ -1,12 +1,17 @@
 package main
 
-// Default constructors (New() with the built-in comparator) and float keys, NaN included.
-// The containers are instantiated with float64 keys / elements and wrapped so that the map and
-// set families see int codes 0..4 whose order is the order cmp.Compare gives the floats:
-//   0 -> NaN (cmp.Compare: NaN is less than every number and equal to itself), 1 -> -1.5, 2 -> 0, 3 -> 2.5, 4 -> +Inf
+// Default constructors (New() with the built-in comparator) over several ordered key / element types: float64 with NaN,
+// a NAMED float type, float32, strings, a named string type, uint8.  The containers are instantiated with that type and
+// wrapped so that the map and set families see int codes 0..4 whose order is the order cmp.Compare gives the values:
+//   floats : 0 -> NaN (cmp.Compare: NaN is less than every number and equal to itself), 1 -> -1.5, 2 -> 0, 3 -> 2.5, 4 -> +Inf
+//   strings: "", "A", "a", "ab", "b"          uint8: 0, 1, 2, 200, 255
+// The configuration name selects the type: dflt (float64), dfltN (type Celsius float64), dflt32, dfltS, dfltNS (type
+// Name string), dfltU8; the trace specifications see the comparator "nat" on the codes.
 
 import (
+	"cmp"
 	"math"
+	"strings"
 
 	"github.com/emirpasic/gods/v2/maps"
 	"github.com/emirpasic/gods/v2/maps/treebidimap"
@@ -18,96 +23,190 @@ import (
 	rbt "github.com/emirpasic/gods/v2/trees/redblacktree"
 )
 
-var floatOf = []float64{math.NaN(), -1.5, 0, 2.5, math.Inf(1)}
+type Celsius float64
+type Name string
 
-func decF(code int) float64 {
-	if code >= 0 && code < len(floatOf) {
-		return floatOf[code]
+func isDflt(c string) bool { return strings.HasPrefix(c, "dflt") }
+
+// the default-constructor variants a tier runs
+func dfltVariants(quick bool) []string {
+	if quick {
+		return []string{"dflt", "dfltN", "dfltS"}
 	}
-	return float64(code) * 1000 // probes outside the universe: -1 -> -1000 (but above NaN), 5 -> 5000 (below +Inf)
+	return []string{"dflt", "dfltN", "dflt32", "dfltS", "dfltNS", "dfltU8"}
 }
-func encF(f float64) int {
-	for i, g := range floatOf {
-		if f == g || (f != f && g != g) {
+
+type codec[K cmp.Ordered] struct {
+	vals    []K
+	outside func(code int) K // probes outside the universe: values that are never stored
+}
+
+func (c *codec[K]) dec(code int) K {
+	if code >= 0 && code < len(c.vals) {
+		return c.vals[code]
+	}
+	return c.outside(code)
+}
+func (c *codec[K]) enc(k K) int {
+	for i, g := range c.vals {
+		if k == g || (k != k && g != g) {
 			return i
 		}
 	}
-	return int(f / 1000)
+	for code := -3; code < 4000; code++ {
+		if code >= 0 && code < len(c.vals) {
+			continue
+		}
+		if c.outside(code) == k {
+			return code
+		}
+	}
+	return -99
 }
 
-type floatMap struct{ m maps.Map[float64, V] }
+func floatCodec[F ~float32 | ~float64]() *codec[F] {
+	return &codec[F]{[]F{F(math.NaN()), -1.5, 0, 2.5, F(math.Inf(1))}, func(code int) F { return F(code) * 1000 }}
+}
+func stringCodec[S ~string]() *codec[S] {
+	return &codec[S]{[]S{"", "A", "a", "ab", "b"}, func(code int) S {
+		if code < 0 {
+			return S("!" + itoa(-code))
+		}
+		return S("zz" + itoa(code))
+	}}
+}
+func uint8Codec() *codec[uint8] {
+	return &codec[uint8]{[]uint8{0, 1, 2, 200, 255}, func(code int) uint8 { return uint8(100 + (code+3)%90) }}
+}
 
-func (f floatMap) Put(k int, v V)          { f.m.Put(decF(k), v) }
-func (f floatMap) Get(k int) (V, bool)     { return f.m.Get(decF(k)) }
-func (f floatMap) Remove(k int)            { f.m.Remove(decF(k)) }
-func (f floatMap) Empty() bool             { return f.m.Empty() }
-func (f floatMap) Size() int               { return f.m.Size() }
-func (f floatMap) Clear()                  { f.m.Clear() }
-func (f floatMap) Values() []V             { return f.m.Values() }
-func (f floatMap) String() string          { return f.m.String() }
-func (f floatMap) ToJSON() ([]byte, error) { return nil, nil }
-func (f floatMap) FromJSON([]byte) error   { return nil }
-func (f floatMap) Keys() []int {
+type ordMap[K cmp.Ordered] struct {
+	m maps.Map[K, V]
+	c *codec[K]
+}
+
+func (f ordMap[K]) Put(k int, v V)          { f.m.Put(f.c.dec(k), v) }
+func (f ordMap[K]) Get(k int) (V, bool)     { return f.m.Get(f.c.dec(k)) }
+func (f ordMap[K]) Remove(k int)            { f.m.Remove(f.c.dec(k)) }
+func (f ordMap[K]) Empty() bool             { return f.m.Empty() }
+func (f ordMap[K]) Size() int               { return f.m.Size() }
+func (f ordMap[K]) Clear()                  { f.m.Clear() }
+func (f ordMap[K]) Values() []V             { return f.m.Values() }
+func (f ordMap[K]) String() string          { return f.m.String() }
+func (f ordMap[K]) ToJSON() ([]byte, error) { return nil, nil }
+func (f ordMap[K]) FromJSON([]byte) error   { return nil }
+func (f ordMap[K]) Keys() []int {
 	out := []int{}
 	for _, k := range f.m.Keys() {
-		out = append(out, encF(k))
+		out = append(out, f.c.enc(k))
 	}
 	return out
 }
 
-type floatBidi struct {
-	floatMap
-	b maps.BidiMap[float64, V]
+type ordBidi[K cmp.Ordered] struct {
+	ordMap[K]
+	b maps.BidiMap[K, V]
 }
 
-func (f floatBidi) GetKey(v V) (int, bool) {
+func (f ordBidi[K]) GetKey(v V) (int, bool) {
 	k, ok := f.b.GetKey(v)
 	if !ok {
 		return 0, false
 	}
-	return encF(k), true
+	return f.c.enc(k), true
 }
 
-func newDefaultMap(kind string, m int) maps.Map[int, V] {
+func defaultMapOf[K cmp.Ordered](kind string, m int, c *codec[K]) maps.Map[int, V] {
 	switch kind {
 	case "treemap":
-		return floatMap{treemap.New[float64, V]()}
+		return ordMap[K]{treemap.New[K, V](), c}
 	case "redblacktree":
-		return floatMap{rbt.New[float64, V]()}
+		return ordMap[K]{rbt.New[K, V](), c}
 	case "avltree":
-		return floatMap{avltree.New[float64, V]()}
+		return ordMap[K]{avltree.New[K, V](), c}
 	case "btree":
-		return floatMap{btree.New[float64, V](m)}
+		return ordMap[K]{btree.New[K, V](m), c}
 	case "treebidimap":
-		b := treebidimap.New[float64, V]()
-		return floatBidi{floatMap{b}, b}
+		b := treebidimap.New[K, V]()
+		return ordBidi[K]{ordMap[K]{b, c}, b}
 	}
 	die("no default-constructor variant for %s", kind)
 	return nil
 }
 
-type floatSet struct{ s sets.Set[float64] }
+func newDefaultMap(kind, variant string, m int) maps.Map[int, V] {
+	switch variant {
+	case "dflt":
+		return defaultMapOf(kind, m, floatCodec[float64]())
+	case "dfltN":
+		return defaultMapOf(kind, m, floatCodec[Celsius]())
+	case "dflt32":
+		return defaultMapOf(kind, m, floatCodec[float32]())
+	case "dfltS":
+		return defaultMapOf(kind, m, stringCodec[string]())
+	case "dfltNS":
+		return defaultMapOf(kind, m, stringCodec[Name]())
+	case "dfltU8":
+		return defaultMapOf(kind, m, uint8Codec())
+	}
+	die("unknown default-constructor variant %s", variant)
+	return nil
+}
 
-func fl(xs []int) []float64 {
-	out := make([]float64, len(xs))
+type ordSet[K cmp.Ordered] struct {
+	s sets.Set[K]
+	c *codec[K]
+}
+
+func (f ordSet[K]) conv(xs []int) []K {
+	out := make([]K, len(xs))
 	for i, x := range xs {
-		out[i] = decF(x)
+		out[i] = f.c.dec(x)
 	}
 	return out
 }
-func (f floatSet) Add(xs ...int)           { f.s.Add(fl(xs)...) }
-func (f floatSet) Remove(xs ...int)        { f.s.Remove(fl(xs)...) }
-func (f floatSet) Contains(xs ...int) bool { return f.s.Contains(fl(xs)...) }
-func (f floatSet) Empty() bool             { return f.s.Empty() }
-func (f floatSet) Size() int               { return f.s.Size() }
-func (f floatSet) Clear()                  { f.s.Clear() }
-func (f floatSet) String() string          { return f.s.String() }
-func (f floatSet) Values() []int {
+func (f ordSet[K]) Add(xs ...int)           { f.s.Add(f.conv(xs)...) }
+func (f ordSet[K]) Remove(xs ...int)        { f.s.Remove(f.conv(xs)...) }
+func (f ordSet[K]) Contains(xs ...int) bool { return f.s.Contains(f.conv(xs)...) }
+func (f ordSet[K]) Empty() bool             { return f.s.Empty() }
+func (f ordSet[K]) Size() int               { return f.s.Size() }
+func (f ordSet[K]) Clear()                  { f.s.Clear() }
+func (f ordSet[K]) String() string          { return f.s.String() }
+func (f ordSet[K]) Values() []int {
 	out := []int{}
 	for _, v := range f.s.Values() {
-		out = append(out, encF(v))
+		out = append(out, f.c.enc(v))
 	}
 	return out
 }
 
-func newDefaultSet() sets.Set[int] { return floatSet{treeset.New[float64]()} }
+type dfltSetWalker interface{ walk() (iter, each []int) }
+
+func (f ordSet[K]) walk() (iter, each []int) {
+	iter, each = []int{}, []int{}
+	t := f.s.(*treeset.Set[K])
+	it := t.Iterator()
+	for i := 0; it.Next() && i < 1<<20; i++ {
+		iter = append(iter, f.c.enc(it.Value()))
+	}
+	t.Each(func(i int, v K) { each = append(each, f.c.enc(v)) })
+	return
+}
+
+// the variant the set universe in progress runs with (TreeSet made by New(): newSet gets no comparator then)
+var curDfltSet = "dflt"
+
+func newDefaultSet() sets.Set[int] {
+	switch curDfltSet {
+	case "dfltN":
+		return ordSet[Celsius]{treeset.New[Celsius](), floatCodec[Celsius]()}
+	case "dflt32":
+		return ordSet[float32]{treeset.New[float32](), floatCodec[float32]()}
+	case "dfltS":
+		return ordSet[string]{treeset.New[string](), stringCodec[string]()}
+	case "dfltNS":
+		return ordSet[Name]{treeset.New[Name](), stringCodec[Name]()}
+	case "dfltU8":
+		return ordSet[uint8]{treeset.New[uint8](), uint8Codec()}
+	}
+	return ordSet[float64]{treeset.New[float64](), floatCodec[float64]()}
+}
